@@ -241,20 +241,58 @@ def totalDim (subs : List SubModel) : Nat := (subs.map (·.nDim)).sum
 def totalTop (nIds : Nat) (subs : List SubModel) : Nat := (subs.map (·.nTop nIds)).sum
 def totalCov (subs : List SubModel) : Nat := (subs.map (·.nCov)).sum
 
-/-- `compute_individual_parameters` applied to a sampled `eta`-block of one sub-model -/
-def SubModel.psi (s : SubModel) (nRows : Nat) (th : Nat → Nat → Nat → α) (eta : Nat → Nat → α)
-    (r d : Nat) : PsiVal α :=
-  indiv false s.kind nRows s.nDim th eta r d
+/-- variants of `HeterogeneousModel.compute_individual_parameters(parameters, eta)` on sampled rows -/
+inductive HetVariant
+  /-- before 7e1e7bd: `eta` is ignored, the stored `(n_ids, n_dim)` parameters are returned -/
+  | legacy
+  /-- the code as it is: `eta` is returned when it holds a number of rows other than `n_ids` (they can
+      only be drawn individuals), the stored parameters otherwise -/
+  | repaired
+  /-- what C06 demands of `sample` followed by the transform: the drawn rows -/
+  | intended
+  deriving Repr, DecidableEq
+
+/-- entry `(r, d)` of the transform of `nRows` sampled rows `eta`; `th i d` = stored value of
+    individual `i` -/
+def heteroPsi (v : HetVariant) (nIds nRows : Nat) (th : Nat → Nat → α) (eta : Nat → Nat → α)
+    (r d : Nat) : α :=
+  match v with
+  | .legacy => th r d
+  | .repaired => if nRows = nIds then th r d else eta r d
+  | .intended => eta r d
+
+/-- number of rows the transform returns -/
+def heteroPsiRows (v : HetVariant) (nIds nRows : Nat) : Nat :=
+  match v with
+  | .legacy => nIds
+  | _ => nRows
+
+/-- `compute_individual_parameters` applied to a sampled `eta`-block of one sub-model. Inside a
+    composed model the legacy heterogeneous block of `n_ids` rows is assigned to `nRows` rows
+    (numpy broadcasting: possible iff `n_ids = nRows` or `n_ids = 1`, see `composedPsiOk`). -/
+def SubModel.psi (v : HetVariant) (s : SubModel) (nIds nRows : Nat) (th : Nat → Nat → Nat → α)
+    (eta : Nat → Nat → α) (r d : Nat) : PsiVal α :=
+  match s.kind with
+  | .hetero => .val (heteroPsi v nIds nRows (fun i e => th 0 (if nIds = 1 then 0 else i) e) eta r d)
+  | _ => indiv false s.kind nRows s.nDim th eta r d
+
+/-- does the assignment of every sub-model's block into the `(nRows, n_dim)` result succeed? -/
+def composedPsiOk (v : HetVariant) (nIds nRows : Nat) (subs : List SubModel) : Bool :=
+  subs.all fun s => match s.kind with
+    | .hetero => v != .legacy || nIds == nRows || nIds == 1
+    | _ => true
 
 /-- `ComposedPopulationModel.compute_individual_parameters(parameters, eta, covariates)` on a sampled
     `eta` of `nRows` rows: entry `(r, d)` (`d` a global dimension index) -/
-def composedPsi (nIds nRows : Nat) (params : Nat → α) (cov : Nat → Nat → α) (eta : Nat → Nat → α) :
+def composedPsi (v : HetVariant) (nIds nRows : Nat) (params : Nat → α) (cov : Nat → Nat → α)
+    (eta : Nat → Nat → α) :
     List SubModel → (pOff cOff dOff : Nat) → (r d : Nat) → PsiVal α
   | [], _, _, _, _, _ => .nan
   | s :: ss, pOff, cOff, dOff, r, d =>
     if d < dOff + s.nDim then
-      s.psi nRows (subTh s nIds params cov pOff cOff) (fun i e => eta i (dOff + e)) r (d - dOff)
-    else composedPsi nIds nRows params cov eta ss (pOff + s.nTop nIds) (cOff + s.nCov)
+      s.psi v nIds nRows (subTh s nIds params cov pOff cOff) (fun i e => eta i (dOff + e))
+        r (d - dOff)
+    else composedPsi v nIds nRows params cov eta ss (pOff + s.nTop nIds) (cOff + s.nCov)
       (dOff + s.nDim) r d
 
 /-! ## `get_mean_and_std` -/
